@@ -395,6 +395,63 @@ func (s *Sim) oracleC01(op Op, evs []SIEvent, preds []PredCall) {
 	if news > 1 {
 		s.probe("multi_alloc_cycle")
 	}
+	// replacement in place: decided in this step (the placeholder is announced as replaced), the real allocation
+	// takes the placeholder's spot on the same node once the shim confirms: it must fit in what the node has without
+	// the placeholder, and the node must be the one the ask requires
+	for _, e := range evs {
+		if e.Kind != "released" || e.Type != "PLACEHOLDER_REPLACED" {
+			continue
+		}
+		app := s.post.Apps[e.App]
+		if app == nil || app.Allocs[e.Key] == nil || app.Allocs[e.Key].ReleaseKey == "" {
+			continue
+		}
+		cph := app.Allocs[e.Key]
+		m := s.shim.Allocs[cph.ReleaseKey]
+		if m == nil {
+			continue
+		}
+		if pa := s.pre.Apps[e.App]; pa != nil && pa.Allocs[e.Key] != nil && pa.Allocs[e.Key].ReleaseKey != "" {
+			continue // decided earlier, announced again
+		}
+		onOther := false
+		for _, nid := range sortedKeys(s.post.Nodes) {
+			if al := s.post.Nodes[nid].Allocs[m.Key]; al != nil && nid != cph.Node {
+				onOther = true
+			}
+		}
+		if onOther {
+			continue // checked below
+		}
+		node := cph.Node
+		mn := s.shim.Nodes[node]
+		if mn == nil {
+			continue
+		}
+		s.probe("in_place_swap_checked")
+		usage := Res{}
+		for _, o := range s.shim.Allocs {
+			if o.Key != m.Key && o.Key != e.Key && o.live() && o.Node == node {
+				usage.AddTo(o.Res)
+			}
+		}
+		if pn := s.pre.Nodes[node]; pn != nil {
+			for _, k := range sortedKeys(pn.Allocs) {
+				if al := pn.Allocs[k]; s.isInflightRealHalf(al) && k != m.Key {
+					usage.AddTo(al.Res)
+				}
+			}
+		}
+		free := mn.Cap.Sub(s.shim.nodeForeign(node)).Sub(usage)
+		// on a node that an external change left over-committed a swap that takes no more than the placeholder held is
+		// no new over-commit (available only ever goes negative through external changes)
+		if ph := s.shim.Allocs[e.Key]; !m.Res.FitsIn(free) && (ph == nil || !m.Res.FitsIn(ph.Res)) {
+			s.violate("C01", "overcommit", "in-place-swap", "scheduler replaces placeholder %s on node %s by %s %s: without the placeholder the node has only %s free (cap %s foreign %s allocated %s)", e.Key, node, m.Key, m.Res, free, mn.Cap, s.shim.nodeForeign(node), usage)
+		}
+		if m.RequiredNode != "" && m.RequiredNode != node {
+			s.violate("C01", "required-node", "in-place-swap", "ask %s requires node %s, the scheduler swaps it for placeholder %s on %s", m.Key, m.RequiredNode, e.Key, node)
+		}
+	}
 	// replacement on another node: the real allocation lands on a node in this step, announced later
 	for _, nid := range sortedKeys(s.post.Nodes) {
 		n := s.post.Nodes[nid]
